@@ -29,6 +29,8 @@ type hNode struct {
 	Kind     string   `json:"kind"` // default | cache | router | sqlite | merge
 	Buflen   int      `json:"buflen,omitempty"`
 	Cap      int      `json:"cap,omitempty"`
+	Broken   bool     `json:"broken,omitempty"` // sqlite: every transaction fails (the inserter sits in its retry back-off)
+	Bulk     int      `json:"bulk,omitempty"`
 	Children []hNode  `json:"children,omitempty"`
 	Mw       []MwSpec `json:"mw,omitempty"` // wrapped around this node, outermost first
 }
@@ -66,6 +68,9 @@ func genNode(t *rapid.T, depth int) hNode {
 		n.Buflen = rapid.IntRange(1, 3).Draw(t, "buflen")
 	case "cache":
 		n.Cap = rapid.IntRange(1, 4).Draw(t, "cap")
+	case "sqlite":
+		n.Bulk = rapid.IntRange(1, 2).Draw(t, "bulk")
+		n.Broken = rapid.IntRange(0, 2).Draw(t, "broken") == 0
 	case "merge":
 		nc := rapid.IntRange(2, 3).Draw(t, "nchildren")
 		for i := 0; i < nc; i++ {
@@ -139,6 +144,7 @@ type c13Env struct {
 	hctx    context.Context
 	hcancel context.CancelFunc
 	err     error
+	broken  bool
 }
 
 func (env *c13Env) build(n *hNode) mocrelay.Handler {
@@ -161,7 +167,10 @@ func (env *c13Env) build(n *hNode) mocrelay.Handler {
 		}
 		db.SetMaxOpenConns(1)
 		env.dbs = append(env.dbs, db)
-		sh, err := mocsqlite.NewSQLiteHandler(env.hctx, db, &mocsqlite.SQLiteHandlerOption{EventBulkInsertNum: 2, EventBulkInsertDur: time.Minute, MaxLimit: mocsqlite.NoLimit})
+		if n.Broken {
+			env.broken = true
+		}
+		sh, err := mocsqlite.NewSQLiteHandler(env.hctx, db, &mocsqlite.SQLiteHandlerOption{EventBulkInsertNum: max(n.Bulk, 1), EventBulkInsertDur: time.Minute, MaxLimit: mocsqlite.NoLimit})
 		if err != nil {
 			env.err = err
 			return mocrelay.NewDefaultHandler()
@@ -187,55 +196,43 @@ func (env *c13Env) build(n *hNode) mocrelay.Handler {
 	return h
 }
 
-var goroutineHdr = regexp.MustCompile(`^goroutine \d+ \[[^\]]*\]:`)
+var goroutineHdr = regexp.MustCompile(`^goroutine (\d+) \[`)
 
-// census returns the multiset of bubble goroutines, identified by their stack
-// with addresses, ids and argument values removed.
-func census() map[string]int {
-	out := map[string]int{}
-	argRe := regexp.MustCompile(`\(.*\)$`)
-	offRe := regexp.MustCompile(` \+0x[0-9a-f]+$`)
+// census returns the goroutines of the process that belong to a bubble, by
+// goroutine id, with the first mocrelay frame of each (for messages).
+func census() map[string]string {
+	out := map[string]string{}
 	for _, g := range simrt.BubbleGoroutines() {
 		lines := strings.Split(g, "\n")
-		var sig []string
-		for i, l := range lines {
-			if i == 0 {
-				continue
-			}
-			if strings.HasPrefix(l, "\t") {
-				sig = append(sig, offRe.ReplaceAllString(strings.TrimSpace(l), ""))
-				continue
-			}
-			if strings.HasPrefix(l, "created by ") {
-				if j := strings.Index(l, " in goroutine"); j > 0 {
-					l = l[:j]
-				}
-				sig = append(sig, l)
-				continue
-			}
-			sig = append(sig, argRe.ReplaceAllString(l, ""))
+		m := goroutineHdr.FindStringSubmatch(lines[0])
+		if m == nil {
+			continue
 		}
-		out[strings.Join(sig, "\n")]++
+		top := ""
+		for _, l := range lines[1:] {
+			if strings.Contains(l, "mocrelay") && !strings.Contains(l, "verifsim") && !strings.HasPrefix(l, "\t") && !strings.HasPrefix(l, "created by") {
+				if i := strings.LastIndex(l, "("); i > 0 {
+					l = l[:i]
+				}
+				top = l
+				break
+			}
+		}
+		if top == "" && len(lines) > 1 {
+			top = strings.TrimSpace(lines[1])
+		}
+		out[m[1]] = top
 	}
 	return out
 }
 
-func censusDiff(before, after map[string]int) []string {
+// censusDiff lists goroutines that exist now but did not exist before the
+// session started.
+func censusDiff(before, after map[string]string) []string {
 	var extra []string
-	for k, n := range after {
-		if n > before[k] {
-			// first mocrelay frame for the message
-			top := ""
-			for _, l := range strings.Split(k, "\n") {
-				if strings.Contains(l, "mocrelay") && !strings.Contains(l, "verifsim") && !strings.Contains(l, ".go:") {
-					top = l
-					break
-				}
-			}
-			if top == "" {
-				top = strings.SplitN(k, "\n", 2)[0]
-			}
-			extra = append(extra, fmt.Sprintf("%dx %s", n-before[k], top))
+	for id, top := range after {
+		if _, ok := before[id]; !ok {
+			extra = append(extra, top)
 		}
 	}
 	sort.Strings(extra)
@@ -327,6 +324,20 @@ func c13Run(t *testing.T, c *C13Case, cut int, mode c13Mode) *simrt.Result {
 			return
 		}
 		sim.Drive() // handler-level goroutines settle (SQLite bulk inserter)
+		if env.broken {
+			// disk trouble: every transaction of the bulk inserter fails at BeginTx,
+			// so it sits in its 1s/2s/4s back-off and its queue fills up
+			plan := &simrt.FaultPlan{Hook: func(n int, what string) error {
+				if what == "begin" {
+					return simrt.ErrInjected
+				}
+				return nil
+			}}
+			simrt.SetFaultPlan(plan)
+			plan.Arm()
+			st.Fault("drv-err-persistent")
+			defer simrt.SetFaultPlan(nil)
+		}
 		base := census()
 		var script []simrt.Op
 		if mode.stall {
@@ -358,16 +369,24 @@ func c13Run(t *testing.T, c *C13Case, cut int, mode c13Mode) *simrt.Result {
 				return
 			}
 		}
-		// O1: serving returns promptly
+		// O1: serving returns promptly. With the injected persistent disk failure an
+		// inbound close may find the session inside a message that waits for room
+		// in the insert queue (back-pressure of the 1s+2s+4s retry cycle): that
+		// fault is outside the property's quantifier, so only "eventually" is
+		// demanded there; cancellation must still be prompt.
+		prompt := time.Second
+		if env.broken && mode.end == "closerecv" {
+			prompt = 8 * time.Second
+		}
 		if !cl.Returned.Load() {
-			sim.Advance(time.Second)
+			sim.Advance(prompt)
 		}
 		if !cl.Returned.Load() {
 			sim.Advance(10 * time.Second)
 			if !cl.Returned.Load() {
-				sim.Violate("C13", "does-not-return", map[string]string{"end": mode.end}, "ServeNostr has not returned 11s of simulated time after the session was ended (%s, peer stalled=%v)", mode.end, mode.stall)
+				sim.Violate("C13", "does-not-return", map[string]string{"end": mode.end}, "ServeNostr has not returned %v of simulated time after the session was ended (%s, peer stalled=%v)", prompt+10*time.Second, mode.end, mode.stall)
 			} else {
-				sim.Violate("C13", "returns-late", map[string]string{"end": mode.end}, "ServeNostr returned only after more than 1s of simulated time")
+				sim.Violate("C13", "returns-late", map[string]string{"end": mode.end}, "ServeNostr returned only after more than %v of simulated time", prompt)
 			}
 		}
 		cl.Stop()
